@@ -104,6 +104,7 @@ VECTORS = [(-1, 0), (0, 1), (1, 1), (2, -1), (1, 2), (2, 2)]
 class R:
     semi = ";"
     name = ""
+    natural = False      # render arithmetic with minimal parentheses (precedence left to the language)
 
     def var(self, v):
         return v
@@ -115,6 +116,17 @@ class R:
         if k == "v":
             return self.var(x[1])
         if k == "bin":
+            if self.natural:
+                # minimal parentheses: * binds tighter than + and -, all left-associative
+                def side(y, right):
+                    t = self.e(y)
+                    if y[0] == "bin":
+                        lower = y[1] in "+-" and x[1] == "*"
+                        same_right = right and ((x[1] == "-" and y[1] in "+-") or (x[1] == "*" and y[1] == "*" and False))
+                        if lower or same_right:
+                            return "(%s)" % t
+                    return t
+                return "%s %s %s" % (side(x[2], False), x[1], side(x[3], True))
             return "(%s %s %s)" % (self.e(x[2]), x[1], self.e(x[3]))
         if k == "neg":
             return "(-%s)" % self.e(x[1])
@@ -163,6 +175,8 @@ class R:
                 out += self.while_(st, ind)
             elif k == "for":
                 out += self.for_(st, ind)
+            elif k == "for2":
+                out += self.for2_(st, ind)
             else:
                 raise ValueError(k)
         return out
@@ -182,6 +196,12 @@ class R:
         pad = "    " * ind
         i = self.var(st[1])
         return [pad + "for (%s = 0; %s < %d; %s++) {" % (i, i, st[2], i)] + self.block(st[3], ind + 1) + [pad + "}"]
+
+    def for2_(self, st, ind):
+        """("for2", i, j, n, body): i counts up from 0, j down from n, while i < j; two initialisers and two updates in one header."""
+        pad = "    " * ind
+        i, j = self.var(st[1]), self.var(st[2])
+        return [pad + "for (%s = 0, %s = %d; %s < %s; %s++, %s--) {" % (i, j, st[3], i, j, i, j)] + self.block(st[4], ind + 1) + [pad + "}"]
 
     def main_calls(self):
         return ["out(entry(%d, %d))%s" % (a, b, self.semi) for a, b in VECTORS]
@@ -211,6 +231,11 @@ class RPy(R):
     def for_(self, st, ind):
         pad = "    " * ind
         return [pad + "for %s in range(%d):" % (st[1], st[2])] + (self.block(st[3], ind + 1) or [pad + "    pass"])
+
+    def for2_(self, st, ind):
+        pad = "    " * ind
+        return [pad + "%s = 0" % st[1], pad + "%s = %d" % (st[2], st[3]), pad + "while %s < %s:" % (st[1], st[2])] + self.block(st[4], ind + 1) + \
+               [pad + "    %s = %s + 1" % (st[1], st[1]), pad + "    %s = %s - 1" % (st[2], st[2])]
 
     def program(self, defs):
         parts = []
@@ -304,6 +329,11 @@ class RGo(R):
         i = st[1]
         return [pad + "for %s = 0; %s < %d; %s++ {" % (i, i, st[2], i)] + self.block(st[3], ind + 1) + [pad + "}"]
 
+    def for2_(self, st, ind):
+        pad = "    " * ind
+        i, j = st[1], st[2]
+        return [pad + "for %s, %s = 0, %d; %s < %s; %s, %s = %s+1, %s-1 {" % (i, j, st[3], i, j, i, j, i, j)] + self.block(st[4], ind + 1) + [pad + "}"]
+
     def program(self, defs):
         parts = ["package main\n"]
         for name, params, body in defs:
@@ -335,6 +365,22 @@ RENDERERS = [RPy(), RJs(), RTs(), RJava(), RC(), RGo(), RPhp()]
 
 # hand-written core programs, one per construct
 CORE_CONSTRUCTS = {
+    "for_two_updates": [("entry", ["a", "b"], [("let", "t0", ("n", 0)), ("let", "i1", ("n", 0)), ("let", "j2", ("n", 0)),
+                                               ("for2", "i1", "j2", 6, [("set", "t0", ("bin", "+", ("bin", "*", ("v", "t0"), ("n", 2)), ("bin", "-", ("v", "j2"), ("v", "i1")))),
+                                                                        ("if", ("cmp", "==", ("v", "i1"), ("v", "a")), [("set", "t0", ("bin", "+", ("v", "t0"), ("v", "b")))], [])]),
+                                               ("ret", ("bin", "+", ("bin", "*", ("v", "t0"), ("n", 10)), ("v", "j2")))])],
+    "precedence_natural": [("entry", ["a", "b"], [("let", "t0", ("bin", "+", ("n", 1), ("bin", "*", ("n", 2), ("n", 3)))),
+                                                  ("let", "t1", ("bin", "-", ("v", "a"), ("bin", "-", ("v", "b"), ("n", 1)))),
+                                                  ("let", "t2", ("bin", "*", ("bin", "+", ("v", "a"), ("v", "b")), ("n", 2))),
+                                                  ("let", "t3", ("bin", "-", ("bin", "-", ("n", 10), ("n", 4)), ("n", 3))),
+                                                  ("let", "t4", ("bin", "+", ("bin", "*", ("v", "a"), ("n", 2)), ("bin", "*", ("v", "b"), ("n", 3)))),
+                                                  ("out", ("v", "t0")), ("out", ("v", "t1")), ("out", ("v", "t2")), ("out", ("v", "t3")),
+                                                  ("ret", ("bin", "-", ("bin", "+", ("v", "t4"), ("bin", "*", ("n", 2), ("bin", "*", ("n", 3), ("n", 4)))), ("n", 5)))])],
+    "constants_only": [("entry", ["a", "b"], [("let", "t0", ("bin", "+", ("n", 1), ("bin", "*", ("n", 2), ("n", 3)))),
+                                              ("let", "t1", ("bin", "*", ("bin", "-", ("n", 7), ("n", 2)), ("bin", "+", ("n", 1), ("n", 1)))),
+                                              ("let", "t2", ("bin", "-", ("n", 0), ("bin", "*", ("n", 4), ("n", 4)))),
+                                              ("out", ("v", "t0")), ("out", ("v", "t1")),
+                                              ("ret", ("bin", "+", ("v", "t2"), ("bin", "*", ("v", "a"), ("n", 0))))])],
     "arith": [("entry", ["a", "b"], [("ret", ("bin", "-", ("bin", "*", ("v", "a"), ("n", 3)), ("bin", "+", ("v", "b"), ("neg", ("v", "a")))))])],
     "if_else": [("entry", ["a", "b"], [("let", "t0", ("n", 0)), ("if", ("cmp", "<", ("v", "a"), ("v", "b")), [("set", "t0", ("n", 1))], [("set", "t0", ("n", 2))]),
                                        ("if", ("and", ("cmp", ">", ("v", "a"), ("n", 0)), ("not", ("cmp", "==", ("v", "b"), ("n", 1)))), [("set", "t0", ("bin", "+", ("v", "t0"), ("n", 10)))], []),
